@@ -28,7 +28,9 @@ type Ctx struct {
 	// Tag distinguishes several contexts alive in one execution (C14); unused otherwise.
 	Tag string
 	// Params are driver-chosen inputs (loop bounds etc.) read through P.
-	Params     []int
+	Params []int
+	// Aux is scratch space for a harness (e.g. memoised Seq values of one execution).
+	Aux        any
 	probes     int
 	ProbeAt    []int // probe call index of each sample
 	ProbeDepth []int // stack depth at that sample
